@@ -63,7 +63,15 @@ class _BufferedLoadAndSave(_LoadAndSave):
 
     def __enter__(self):
         self._collection._buffer_lock.__enter__()
-        super().__enter__()
+        try:
+            super().__enter__()
+        except BaseException as error:
+            # __exit__ is not called when __enter__ raises, so the lock must be
+            # released here or it would stay held forever.
+            self._collection._buffer_lock.__exit__(
+                type(error), error, error.__traceback__
+            )
+            raise
 
     def __exit__(self, exc_type, exc_val, exc_tb):
         try:
